@@ -60,6 +60,8 @@ pub enum Op {
     Add(usize),
     Bind(usize, usize, PLabel),
     Put(usize, Vec<u8>),
+    /// put() of the bytes in a non-canonical Hex representation (see Step::PutRaw)
+    PutRaw(usize, Vec<u8>, u8),
     Data(usize),
     NextId,
 }
@@ -152,7 +154,7 @@ impl<const N: usize> Exec<N> {
             let ok = match op {
                 Op::Add(v) => m.can_add(*v),
                 Op::Bind(a, b, l) => m.can_bind(*a, *b, l),
-                Op::Put(v, _) => m.can_put(*v),
+                Op::Put(v, _) | Op::PutRaw(v, _, _) => m.can_put(*v),
                 Op::Data(v) => m.can_data(*v),
                 Op::NextId => {
                     let pos = m.returned.iter().next_back().map_or(0, |x| x + 1).max(inst.next_v);
@@ -379,6 +381,17 @@ impl<const N: usize> Exec<N> {
                 g.put(*v, &Hex::from_vec(d.clone()));
                 OpRet::Unit
             }
+            Op::PutRaw(v, d, enc) => {
+                let h = if *enc == 2 && d.len() <= 8 {
+                    let mut a = [0xEE_u8; 8];
+                    a[..d.len()].copy_from_slice(d);
+                    Hex::Bytes(a, d.len())
+                } else {
+                    Hex::Vector(d.clone())
+                };
+                g.put(*v, &h);
+                OpRet::Unit
+            }
             Op::Data(v) => OpRet::Data(g.data(*v).map(|h| h.bytes().to_vec()), vec![]),
             Op::NextId => OpRet::Id(g.next_id()),
         });
@@ -395,7 +408,7 @@ impl<const N: usize> Exec<N> {
             Err(c) => {
                 let owners = match op {
                     Op::Add(_) => clauses::PANIC_ADD,
-                    Op::Bind(..) | Op::Put(..) => clauses::PANIC_GC,
+                    Op::Bind(..) | Op::Put(..) | Op::PutRaw(..) => clauses::PANIC_GC,
                     Op::Data(_) => &["C02", "C03", "C06", "C07"],
                     Op::NextId => clauses::PANIC_NEXT,
                 };
@@ -488,6 +501,12 @@ impl<const N: usize> Exec<N> {
                     });
                     // C04: blank slate
                     if let Some(vo) = obs.verts.iter().find(|x| x.v == *v) {
+                        let vp = if vo.vprint.is_empty() {
+                            let g = self.gs[i].as_ref().unwrap();
+                            guarded(|| g.v_print(*v).unwrap_or_default()).unwrap_or_default()
+                        } else {
+                            vo.vprint.clone()
+                        };
                         if !vo.kids.is_empty() {
                             if soft.is_none() {
                                 *soft = fail::<()>(
@@ -497,12 +516,12 @@ impl<const N: usize> Exec<N> {
                             ).err();
                             }
                         }
-                        if vo.vprint.contains('Δ') {
+                        if vp.contains('Δ') {
                             if soft.is_none() {
                                 *soft = fail::<()>(
                                 "add.not-blank.data",
                                 &["C04", "C03"],
-                                format!("add(ν{v}) on an absent id came back with data: {}", vo.vprint),
+                                format!("add(ν{v}) on an absent id came back with data: {vp}"),
                             ).err();
                             }
                         }
@@ -552,7 +571,10 @@ impl<const N: usize> Exec<N> {
                 self.stats.max("max.groups_alive", m.groups_alive() as u64);
                 self.stats.max("max.group_size", m.group_size(*a) as u64);
             }
-            Op::Put(v, d) => {
+            Op::Put(v, d) | Op::PutRaw(v, d, _) => {
+                if matches!(op, Op::PutRaw(..)) {
+                    self.stats.bump("probe.put_non_canonical_hex");
+                }
                 if m.present[v].unread {
                     self.stats.bump("probe.overwrite_unread");
                 }
